@@ -109,7 +109,10 @@ Inductive op :=
 | BeginMC (mcid : bool) | EndMC
 | Tok (k : Z)                                (* every other pydyf operator (one item appended) *)
 (* another Stream sharing the same resource dictionary (page streams, form field streams) registers a name *)
-| ExtState (v : gsval) | ExtAlpha (stroke : bool) (a : Z) (isint : bool).
+| ExtState (v : gsval) | ExtAlpha (stroke : bool) (a : Z) (isint : bool)
+(* Stream.rollback(checkpoint) where checkpoint() had returned (len(stream), len(_ctm_stack), len(ExtGState)): what
+   SVGImage.draw does when the drawing of an SVG raises (fix of finding F66) *)
+| Rollback (t c g : nat).
 
 (* ------------------------------------------------------------------------------ the Stream state machine *)
 Record st := mk {
@@ -230,6 +233,13 @@ Definition m_begin_mc (mcid : bool) (s : st) : st :=
 
 Definition m_end_mc (s : st) : st := if markon s then emit TEMC s else s.
 
+(* del self.stream[operations:]; del self._ctm_stack[states:]; the resources added since are deleted; every cache
+   and _old_font are forgotten.  (toks and ctms are stored newest first: the oldest t / c entries are kept.) *)
+Definition m_rollback (t c g : nat) (s : st) : st :=
+  mk (skipn (length (toks s) - t) (toks s)) (skipn (length (ctms s) - c) (ctms s)) None None None None None None
+     (firstn g (egs s)) (nmark s) (markon s).
+Definition cp_of (s : st) : nat * nat * nat := (length (toks s), length (ctms s), length (egs s)).
+
 Definition mstep (o : op) (s : st) : option st :=
   match o with
   | Push => m_push s
@@ -248,6 +258,7 @@ Definition mstep (o : op) (s : st) : option st :=
   | Tok k => Some (emit (Tother k) s)
   | ExtState v => Some (with_egs (assign (KS (Z.of_nat (length (egs s)))) v (egs s)) s)
   | ExtAlpha stroke a i => Some (with_egs (add_if_absent (KA stroke a i) (canon (KA stroke a i)) (egs s)) s)
+  | Rollback t c g => Some (m_rollback t c g s)
   end.
 
 Fixpoint run (ops : list op) (s : st) : option st :=
@@ -298,6 +309,7 @@ Definition nstep (o : op) (n : nst) : nst :=
   | Tok k => nemit (Tother k) n
   | ExtState v => nmk (ntoks n) (assign (KS (Z.of_nat (length (negs n)))) v (negs n)) (nnmark n) (nmarkon n)
   | ExtAlpha stroke a i => nmk (ntoks n) (add_if_absent (KA stroke a i) (canon (KA stroke a i)) (negs n)) (nnmark n) (nmarkon n)
+  | Rollback _ _ _ => n      (* the un-optimised reference is only run on what is kept: see `kept` *)
   end.
 Definition nrun (ops : list op) (n : nst) : nst := fold_left (fun n o => nstep o n) ops n.
 
@@ -441,6 +453,7 @@ Definition wstep (o : op) (b : list bk) : option (list bk) :=
   | EndMC => match b with Bm :: r => Some r | _ => None end
   | Transform _ => if in_text b then None else Some b
   | TextMatrix _ => if in_text b then Some b else None
+  | Rollback _ _ _ => None      (* failed drawings are segments of a program, see wscanp *)
   | _ => Some b
   end.
 Fixpoint wscan (b : list bk) (ops : list op) : option (list bk) :=
@@ -449,6 +462,51 @@ Fixpoint wscan (b : list bk) (ops : list op) : option (list bk) :=
   | o :: r => match wstep o b with Some b' => wscan b' r | None => None end
   end.
 Definition wb (ops : list op) : bool := match wscan [] ops with Some [] => true | _ => false end.
+
+Definition no_rb (o : op) : bool := match o with Rollback _ _ _ => false | _ => true end.
+
+(* ---- programs with failed drawings.  SVGImage.draw: checkpoint = stream.checkpoint(); try: <draw the SVG> except:
+   stream.rollback(checkpoint).  The drawing of an SVG starts with push_state (SVG.draw_node) and the exception
+   interrupts it somewhere before (or at) the matching pop_state: `scope_ok`. *)
+Inductive seg := Ok (ops : list op) | Failed (body : list op).
+Fixpoint run_prog (p : list seg) (s : st) : option st :=
+  match p with
+  | [] => Some s
+  | Ok ops :: r => match run ops s with Some s' => run_prog r s' | None => None end
+  | Failed body :: r =>
+      match run body s with
+      | Some s2 => let '(t, c, g) := cp_of s in run_prog r (m_rollback t c g s2)
+      | None => None
+      end
+  end.
+(* the calls that are not erased *)
+Fixpoint kept (p : list seg) : list op :=
+  match p with
+  | [] => []
+  | Ok ops :: r => ops ++ kept r
+  | Failed _ :: r => kept r
+  end.
+(* an interrupted bracketed drawing: Push first, then calls that never close that first bracket except by the very
+   last call *)
+Fixpoint deep (b : list bk) (ops : list op) : bool :=
+  match ops with
+  | [] => true
+  | o :: r => match wstep o b with
+              | Some b' => (match r with [] => true | _ => match b' with [] => false | _ => true end end) && deep b' r
+              | None => false
+              end
+  end.
+Definition scope_ok (body : list op) : bool :=
+  match body with Push :: rest => deep [Bq] rest | _ => false end.
+(* well-bracketed program: the kept calls are well bracketed, every failed drawing is a scope and starts outside
+   text objects *)
+Fixpoint wscanp (b : list bk) (p : list seg) : option (list bk) :=
+  match p with
+  | [] => Some b
+  | Ok ops :: r => match wscan b ops with Some b' => wscanp b' r | None => None end
+  | Failed body :: r => if negb (in_text b) && scope_ok body then wscanp b r else None
+  end.
+Definition wbp (p : list seg) : bool := match wscanp [] p with Some [] => true | _ => false end.
 
 (* the text matrix is set after every begin_text before anything is shown (draw_first_line does so): premise of
    the soundness of merging `ET BT` *)
@@ -497,19 +555,20 @@ Definition out_matches (s : st) (o : implout) : bool :=
    the calls were well bracketed.  bit 2: the rendering of the implementation's tokens differs from the
    rendering of the un-optimised sequence (a skipped operator was not redundant) although the premises of the
    theorem hold. *)
-Definition stream_judge (c : bool * list key * list op * option implout) : nat :=
-  let '(mark, keys0, ops, out) := c in
+Definition stream_judge (c : bool * list key * list op * list op * option implout) : nat :=
+  let '(mark, keys0, ops, kops, out) := c in
   let d0 := map (fun k => (k, canon k)) keys0 in
   let s0 := fresh mark d0 in
   match run ops s0, out with
   | None, None => 0
   | Some s, Some o =>
-      let n := nrun ops (nfresh mark d0) in
+      (* kops: the calls without the failed drawings (= ops when there is no rollback) *)
+      let n := nrun kops (nfresh mark d0) in
       let same := same_rendering (interp (io_toks o)) (interp (rev (ntoks n))) in
       ((if out_matches s o then 0 else 1) +
-       (if wb ops && negb (nested (io_toks o) && dyck_q (io_toks o) && dyck_text (io_toks o) && dyck_mc (io_toks o)
+       (if wb kops && negb (nested (io_toks o) && dyck_q (io_toks o) && dyck_text (io_toks o) && dyck_mc (io_toks o)
                            && Nat.eqb (length (io_ctms o)) 1) then 2 else 0) +
-       (if wb ops && tm_disciplined false ops && negb same then 4 else 0))%nat
+       (if wb kops && tm_disciplined false kops && negb same then 4 else 0))%nat
   | _, _ => 1%nat
   end.
 
@@ -518,17 +577,18 @@ Definition stream_judge (c : bool * list key * list op * option implout) : nat :
    bit 0: model <> implementation; bit 1: calls well bracketed but tokens not nested (impossible by theorem);
    bit 2: premises hold but rendering differs (impossible by theorem); bit 4: the calls of the draw code are not well
    bracketed; bit 5: something is shown in a text object before the text matrix is set; bit 6: initial dictionary
-   not well formed; bit 7: rendering differs because `ET BT` was merged although the text matrix was not set again *)
-Definition trace_judge (c : bool * egsd * list op * list tok) : nat :=
-  let '(mark, d0, ops, out) := c in
+   not well formed; bit 7: rendering differs because `ET BT` was merged although the text matrix was not set again.
+   `kops` = the calls without the failed drawings (between a checkpoint and the rollback to it). *)
+Definition trace_judge (c : bool * egsd * list op * list op * list tok) : nat :=
+  let '(mark, d0, ops, kops, out) := c in
   let s0 := fresh mark d0 in
   match run ops s0 with
   | None => 1%nat
   | Some s =>
-      let n := nrun ops (nfresh mark d0) in
+      let n := nrun kops (nfresh mark d0) in
       let same := same_rendering (interp out) (interp (rev (ntoks n))) in
-      let w := wb ops in
-      let tmd := tm_disciplined false ops in
+      let w := wb kops in
+      let tmd := tm_disciplined false kops in
       ((if list_eqb tok_eqb (rev (toks s)) out then 0 else 1) +
        (if w && negb (nested out) then 2 else 0) +
        (if w && tmd && negb same then 4 else 0) +
